@@ -28,7 +28,6 @@ theorem post_assocAll (pOp : P Node) (hop : Post pOp WfN) (x : Nat) (acc : List 
   unfold assocAll
   have := post_assocLoop pOp hop x
   post_auto
-  apply this; exact hacc
 
 /-- The postfix loop of `parseOperand`: calls, indexes, slices and selectors of a well-formed
 operand are well-formed (an index has its index expression). -/
@@ -44,7 +43,7 @@ theorem post_operandLoop (env : Env) (pe : P Node) (hpe : Post pe WfN) :
     · apply ih; wf_close
     · apply ih
       rename_i h
-      rcases h with ⟨h1, h2, h3 | ⟨h3, h4⟩⟩ <;> simp only [] at h1 h2 h3 <;> subst h3 <;> wf_close
+      rcases h with ⟨h1, h2, h3 | ⟨h3, h4⟩⟩ <;> rw [h3] <;> wf_close
     · apply ih; wf_close
 
 theorem post_operandAll (env : Env) (pe : P Node) (hpe : Post pe WfN) (lhs : Node)
@@ -52,9 +51,9 @@ theorem post_operandAll (env : Env) (pe : P Node) (hpe : Post pe WfN) (lhs : Nod
   unfold operandAll
   have := post_operandLoop env pe hpe
   post_auto
-  apply this; exact hlhs
 
-macro_rules | `(tactic| post_leaf) => `(tactic| (apply post_operandAll <;> post_leaf))
+macro_rules | `(tactic| post_leaf) => `(tactic| (apply post_operandAll <;> first | post_leaf | wf_close))
+macro_rules | `(tactic| post_leaf) => `(tactic| (apply post_assocAll <;> first | assumption | wf_close))
 
 /-- The five functions of the expression cycle return present, well-formed nodes. -/
 structure CoreWf (env : Env) (e t b : Nat) : Prop where
@@ -82,7 +81,15 @@ theorem corewf_step (env : Env) (e t b : Nat)
       have h2 := (ih e t' b (by omega)).expr
       unfold pTypeExpr
       post_auto
-      done
+      · rename_i hd _
+        rcases hd with rfl | rfl <;>
+          simp_all [typeOK, IDArray, IDRoarray, IDNptr, IDPtr, IDRoslice, IDRotable, IDSlice, IDTable]
+      · rename_i hd _ _
+        rcases hd with rfl | rfl <;>
+          simp_all [typeOK, IDArray, IDRoarray, IDNptr, IDPtr, IDRoslice, IDRotable, IDSlice, IDTable]
+      · rename_i hd _
+        rcases hd with ((rfl | rfl) | rfl) | rfl <;>
+          simp_all [typeOK, IDArray, IDRoarray, IDNptr, IDPtr, IDRoslice, IDRotable, IDSlice, IDTable]
   have hPoss : Post (pPossibleList env e t b) WfN := by
     cases e with
     | zero => unfold pPossibleList; post_auto
@@ -90,19 +97,25 @@ theorem corewf_step (env : Env) (e t b : Nat)
       have h1 := (ih e' t b (by omega)).possibleList
       unfold pPossibleList
       post_auto
-      done
   have hOperand : Post (pOperand env e t b) WfN := by
     cases e with
-    | zero => unfold pOperand; post_auto; done
+    | zero => unfold pOperand; post_auto
     | succ e' =>
       have h1 := (ih e' t b (by omega)).operand
       unfold pOperand
       post_auto
-      done
   have hExpr1 : Post (pExpr1 env e t b) WfN := by
     unfold pExpr1
     post_auto
-    done
   exact ⟨hExpr, hType, hPoss, hOperand, hExpr1⟩
+
+theorem core_wf (env : Env) : ∀ n e t b, e + t + b = n → CoreWf env e t b := by
+  intro n
+  induction n using Nat.strongRecOn with
+  | _ n ih =>
+    intro e t b h
+    apply corewf_step
+    intro e' t' b' hlt
+    exact ih (e' + t' + b') (by omega) e' t' b' rfl
 
 end WuffsVerif.Parse
